@@ -1233,25 +1233,54 @@ def _b_edit_term(es, op):
     raise _BSkip("edit " + p[0])
 
 
+# A chain of `let`s inside one `Eval` is type-checked by re-normalising the chain at every level (40 s for a
+# chain of eight around x_canon, against 0.1 s for the same computation): such terms are handed over as
+# (name, expression) pairs and emitted as one top-level Definition each, names prefixed per case.
+_LETS = "\x01LETS"
+
+
+def _lets(pairs, body):
+    return _LETS + "\x02".join(f"{n}\x03{e}" for n, e in pairs) + "\x04" + body
+
+
+def _emit_eval(t, j):
+    """the vernacular for case number j of a shard"""
+    if not t.startswith(_LETS):
+        return f"Eval vm_compute in ({t}).\n"
+    defs, body = t[len(_LETS):].split("\x04")
+    pairs = [d.split("\x03") for d in defs.split("\x02")]
+    names = [n for n, _ in pairs]
+
+    def ren(x):
+        for n in names:
+            x = re.sub(r"\b%s\b" % re.escape(n), f"c{j}_{n}", x)
+        return x
+    out = []
+    for n, e in pairs:
+        out.append(f"Definition c{j}_{n} := {ren(e)}.\n")
+    out.append(f"Eval vm_compute in ({ren(body)}).\n")
+    return "".join(out)
+
+
 def _b_ke_term(t):
     if t[1] != "|":
         raise _BSkip("ke")
     v, r = value_term(t[2:])
     if not r or r[0] != "|":
         raise _BSkip("ke")
-    lets = [f"let v0 := {v} in", "let v1 := x_canon v0 in"]
+    lets = [("v0", v), ("v1", "x_canon v0")]
     oks = ["x_ok v0"]
-    lets.append("let es0 := match v1 with VObj es => es | _ => [] end in")
+    lets.append(("es0", "match v1 with VObj es => es | _ => [] end"))
     i = 0
     for op in r[1:]:
         e, seen = _b_edit_term(f"es{i}", op)
         if seen is not None:
             oks.append(f"x_ok {seen}")
-        lets.append(f"let es{i + 1} := {e} in")
+        lets.append((f"es{i + 1}", e))
         i += 1
-    lets.append(f"let v2 := match v1 with VObj _ => VObj es{i} | x => x end in")
+    lets.append(("v2", f"match v1 with VObj _ => VObj es{i} | x => x end"))
     oks.append("x_ok v2")
-    return " ".join(lets) + f" (2, ({' && '.join(oks)}, x_text v2, jcs v2, v2))"
+    return _lets(lets, f"(2, ({' && '.join(oks)}, x_text v2, jcs v2, v2))")
 
 
 def _b_canon_term(fam, t):
@@ -1262,16 +1291,16 @@ def _b_canon_term(fam, t):
         return f"(1, canon_number {cps_term(t[1])})"
     if fam == "c09" and k == "k" and t[1] == "|":
         v, _ = value_term(t[2:])
-        return f"let v := {v} in (0, (x_ok v, x_text v, jcs v))"
+        return _lets([("vv", v)], "(0, (x_ok vv, x_text vv, jcs vv))")
     if fam == "c10" and k == "k" and t[1] == "|":
         v, _ = value_term(t[2:])
-        return f"let v := {v} in let once := x_canon v in (3, (x_ok v, value_eqb once (x_canon once), once))"
+        return _lets([("vv", v), ("once", "x_canon vv")], "(3, (x_ok vv, value_eqb once (x_canon once), once))")
     if fam == "c10" and k == "kk" and t[1] == "|":
         a, r = value_term(t[2:])
         if not r or r[0] != "|":
             raise _BSkip("kk")
         b, _ = value_term(r[1:])
-        return f"let a := {a} in let b := {b} in (4, (x_ok a && x_ok b, x_text a, x_text b))"
+        return _lets([("va", a), ("vb", b)], "(4, (x_ok va && x_ok vb, x_text va, x_text vb))")
     if fam == "c10" and k == "kd" and len(t) == 5 and t[1] == "|" and t[3] == "|":
         return f"(5, (x_doc {cps_term(t[2])}, x_doc {cps_term(t[4])}))"
     raise _BSkip(k)
@@ -1998,6 +2027,9 @@ def _b_model_line(fam, ast):
 # ------------------------------------------------------------------ driver: sampling, shards, report
 _B_MAX_CASE = 6000      # characters of a case line (a number spelling of n digits takes about 3n)
 _B_SHARDS = 8
+# the canonicalization families convert every number leaf through Flocq inside Coq: a wide object of 90 members
+# costs a minute there, so their in-Coq sample takes the cases below this length (the rest is counted as skipped)
+_B_MAX_CASE_FAM = {"c09": 4000, "c10": 4000}
 
 
 def _b_prep(ans):
@@ -2029,7 +2061,7 @@ def _b_crosscheck(fam, pairs, coq_dir, tmp_dir, limit=200, timeout=900):
     for case, model, spec in pairs:
         if len(sel) >= limit:
             break
-        if len(case) > _B_MAX_CASE:
+        if len(case) > _B_MAX_CASE_FAM.get(fam, _B_MAX_CASE):
             skip("too-long", case)
             continue
         if model.startswith("BADCASE") or model.startswith("MODEL-STACK-OVERFLOW"):
@@ -2065,8 +2097,8 @@ def _b_crosscheck(fam, pairs, coq_dir, tmp_dir, limit=200, timeout=900):
         src = os.path.join(tmp_dir, f"xcheck_{fam}_{i}.v")
         with open(src, "w") as f:
             f.write(_B_HEADERS[fam])
-            for _, _, _, t in shards[i]:
-                f.write(f"Eval vm_compute in ({t}).\n")
+            for j, (_, _, _, t) in enumerate(shards[i]):
+                f.write(_emit_eval(t, j))
         t0 = time.time()
         p = subprocess.run(["coqc", "-noglob", "-Q", "theories", "JsonSyntax", "-w", "none", "-o",
                             os.path.join(tmp_dir, f"xcheck_{fam}_{i}.vo"), src],
